@@ -8,7 +8,7 @@ A check module (mc/checks/cNN.py) provides
                          executed in a worker process against the real, freshly rebuilt binaries
 
 and this driver enumerates every sub-space completely (never samples), aggregates what was covered,
-turns disagreements into replayable artefacts and matches them against known_findings.jsonl.
+turns disagreements into replayable artefacts and matches them against known_findings.txt.
 """
 import collections, hashlib, json, multiprocessing, os, resource, shutil, signal, subprocess, sys, time
 from . import build
@@ -159,16 +159,15 @@ def _call(args):
 
 
 def load_known(pid):
+    """open findings of this property: signature -> {'what': text}"""
+    import re
     out = {}
-    p = os.path.join(ROOT, 'known_findings.jsonl')
+    p = os.path.join(ROOT, 'known_findings.txt')
     if os.path.exists(p):
         for l in open(p):
-            l = l.strip()
-            if not l or l.startswith('#'):
-                continue
-            e = json.loads(l)
-            if e.get('property') == pid and e.get('status') == 'open':
-                out[e['signature']] = e
+            m = re.match(r'open:\s+property=(\S+)\s+signature=(\S+)\s+::\s+(.*)$', l.strip())
+            if m and m.group(1) == pid:
+                out[m.group(2)] = {'what': m.group(3), 'signature': m.group(2)}
     return out
 
 
